@@ -130,7 +130,7 @@ PROPS = {
     },
     "C05": {
         "lean": ["FsnVerif.Props.C05"],
-        "lean_support": ["FsnVerif.Proofs.ProtoLemmas", "FsnVerif.Proofs.ProtoTables", "FsnVerif.Proofs.SkeletonTie", "FsnVerif.Model.Proto", "FsnVerif.Expected.Skeleton"],
+        "lean_support": ["FsnVerif.Proofs.ProtoLemmas", "FsnVerif.Proofs.ProtoTables", "FsnVerif.Proofs.ProtoTables1", "FsnVerif.Proofs.ProtoTables1Defs", "FsnVerif.Proofs.ProtoTables1a", "FsnVerif.Proofs.ProtoTables1b", "FsnVerif.Proofs.ProtoTables1c", "FsnVerif.Proofs.ProtoTables1d", "FsnVerif.Proofs.ProtoTables2", "FsnVerif.Proofs.ProtoTables3", "FsnVerif.Proofs.SkeletonTie", "FsnVerif.Proofs.SkeletonTieDefs", "FsnVerif.Proofs.SkeletonTieFns", "FsnVerif.Model.Proto", "FsnVerif.Expected.Skeleton"],
         "stages": [{"name": "conc", "cmd": "conc", "what": "C05"}],
         "rule": CONC_RULE,
         "assumptions": ["Go scheduler fair to runnable goroutines; sync.Mutex starvation-free; File.Close wakes a blocked Read (runtime poller)",
@@ -138,21 +138,21 @@ PROPS = {
     },
     "C06": {
         "lean": ["FsnVerif.Props.C06"],
-        "lean_support": ["FsnVerif.Proofs.ProtoLemmas", "FsnVerif.Proofs.ProtoTables", "FsnVerif.Proofs.SkeletonTie", "FsnVerif.Model.Proto", "FsnVerif.Expected.Skeleton"],
+        "lean_support": ["FsnVerif.Proofs.ProtoLemmas", "FsnVerif.Proofs.ProtoTables", "FsnVerif.Proofs.ProtoTables1", "FsnVerif.Proofs.ProtoTables1Defs", "FsnVerif.Proofs.ProtoTables1a", "FsnVerif.Proofs.ProtoTables1b", "FsnVerif.Proofs.ProtoTables1c", "FsnVerif.Proofs.ProtoTables1d", "FsnVerif.Proofs.ProtoTables2", "FsnVerif.Proofs.ProtoTables3", "FsnVerif.Proofs.SkeletonTie", "FsnVerif.Proofs.SkeletonTieDefs", "FsnVerif.Proofs.SkeletonTieFns", "FsnVerif.Model.Proto", "FsnVerif.Expected.Skeleton"],
         "stages": [{"name": "conc", "cmd": "conc", "what": "C06"}],
         "rule": CONC_RULE,
         "assumptions": ["Go channel/select semantics as modelled; runtime poller behaviour on File.Close"],
     },
     "C07": {
         "lean": ["FsnVerif.Props.C07"],
-        "lean_support": ["FsnVerif.Proofs.ProtoLemmas", "FsnVerif.Proofs.ProtoTables", "FsnVerif.Proofs.SkeletonTie", "FsnVerif.Model.Proto", "FsnVerif.Expected.Skeleton"],
+        "lean_support": ["FsnVerif.Proofs.ProtoLemmas", "FsnVerif.Proofs.ProtoTables", "FsnVerif.Proofs.ProtoTables1", "FsnVerif.Proofs.ProtoTables1Defs", "FsnVerif.Proofs.ProtoTables1a", "FsnVerif.Proofs.ProtoTables1b", "FsnVerif.Proofs.ProtoTables1c", "FsnVerif.Proofs.ProtoTables1d", "FsnVerif.Proofs.ProtoTables2", "FsnVerif.Proofs.ProtoTables3", "FsnVerif.Proofs.SkeletonTie", "FsnVerif.Proofs.SkeletonTieDefs", "FsnVerif.Proofs.SkeletonTieFns", "FsnVerif.Model.Proto", "FsnVerif.Expected.Skeleton"],
         "stages": [{"name": "conc", "cmd": "conc", "what": "C07"}],
         "rule": CONC_RULE + "; C07: 2-4 goroutines x 4 calls of Add/Remove/WatchList on 3 directories while another goroutine creates and deletes files in them; every recorded history is checked for linearizability against the set specification (porcupine); Add/Remove racing Close must return nil/ErrClosed/ErrNonExistentWatch only",
         "assumptions": ["Go memory model / race detector coverage are not Lean objects: data-race freedom of the binary is evidenced, not proved"],
     },
     "C13": {
         "lean": ["FsnVerif.Props.C13"],
-        "lean_support": ["FsnVerif.Props.C06", "FsnVerif.Proofs.ProtoLemmas", "FsnVerif.Proofs.SkeletonTie", "FsnVerif.Model.Proto"],
+        "lean_support": ["FsnVerif.Props.C06", "FsnVerif.Proofs.ProtoLemmas", "FsnVerif.Proofs.SkeletonTie", "FsnVerif.Proofs.SkeletonTieDefs", "FsnVerif.Proofs.SkeletonTieFns", "FsnVerif.Model.Proto"],
         "stages": [{"name": "conc", "cmd": "conc", "what": "C13"}],
         "rule": CONC_RULE + "; C13: inotify descriptors in /proc/self/fd and readEvents frames in the goroutine dump before/after create-use-close cycles with pending events, concurrent Close, Close racing Add; NewWatcher forced to fail by exhausting fs.inotify.max_user_instances",
         "assumptions": ["K6: closing the inotify descriptor frees every kernel watch; descriptor release and goroutine termination are the OS's / runtime's (measured)"],
